@@ -316,7 +316,11 @@ def _accept_test(tree, refit):
     over x, y, shape[0], shape[1] and the three atoms"""
     import copy as _c
     loop = [n for n in ast.walk(refit) if isinstance(n, ast.For) and ast.unparse(n.iter) == 'isle'][0]
-    idx = [k for k, st in enumerate(loop.body) if isinstance(st, ast.If)
+    # the `if …: continue` that judges the rounded pixel (x, y): the first one, after `x` and `y` have been assigned, whose
+    # test reads them (an earlier guard on the float position, e.g. "no pixel position at all", is not it)
+    first_xy = max(k for k, st in enumerate(loop.body) if isinstance(st, ast.Assign) and len(st.targets) == 1
+                   and isinstance(st.targets[0], ast.Name) and st.targets[0].id in ('x', 'y'))
+    idx = [k for k, st in enumerate(loop.body) if k > first_xy and isinstance(st, ast.If)
            and any(isinstance(m, ast.Continue) for b in st.body for m in ast.walk(b))][0]
     test = _c.deepcopy(loop.body[idx].test)
     # plain-name boolean temporaries assigned (once) earlier in the same block, innermost last
